@@ -93,7 +93,7 @@ class RdfBuilder:
         if k < 0.3:
             return r.choice(STR)
         if k < 0.42:
-            return Literal(r.choice(STR), langtag=r.choice(["en", "fr"]))
+            return Literal(r.choice(STR), langtag=r.choice(["en", "fr", "en-GB", "zh-Hant", "pt-BR"]))
         if k < 0.55:
             return r.randint(-100, 100)
         if k < 0.65:
